@@ -102,6 +102,26 @@ def run(ctx: Ctx) -> None:
             rng = ctx.rng('expr', i)
             e, _ = gen.gen_expression(rng, max_len=4 if q else 6, depth=2)
             check(ctx, 'expr', i, e, 'expression')
+    # every legal move-axis specification of a rank-3 leaf (81 source/destination pairs: one, two or three axes,
+    # pairs left in place included), on a leaf with three different and one with three equal axis lengths
+    import itertools
+    import jax
+    import jax.numpy as jnp
+    from furax._base.axes import MoveAxisOperator
+    specs = [(src, dst) for k in (1, 2, 3) for src in itertools.permutations(range(3), k)
+             for dst in itertools.permutations(range(3), k)]
+    shapes = [(2, 3, 4), (3, 3, 3)] if q else [(2, 3, 4), (3, 3, 3), (2, 2, 3), (1, 2, 3)]
+    for i, ((src, dst), shape) in enumerate(itertools.product(specs, shapes)):
+        if ctx.want('moveaxis', i):
+            rng = ctx.rng('moveaxis', i)
+            sg = tuple(a - 3 if rng.random() < 0.3 else a for a in src)
+            dg = tuple(a - 3 if rng.random() < 0.3 else a for a in dst)
+            st_, o = safe(lambda: MoveAxisOperator(sg, dg, in_structure=jax.ShapeDtypeStruct(shape, jnp.float32)))
+            if st_ != 'ok':
+                ctx.fail('moveaxis', i, f'moveaxis-ctor-raises:{st_}', f'legal specification {sg} -> {dg} refused: {o}',
+                         {'src': sg, 'dst': dg, 'shape': shape})
+                continue
+            check(ctx, 'moveaxis', i, o, 'operator')
     for i in range(120 if q else 2500):
         if ctx.want('leaf', i):
             rng = ctx.rng('leaf', i)
